@@ -646,7 +646,7 @@ def x30(cx: Cx, ob: Ob) -> None:
     check_split(cx, ob)
     check_parse_curie_delimiter(cx, ob)
     check_parse_curie_flow(cx, ob)
-    check_expand_reference(cx, ob)
+    check_expand_reference(cx, ob, alnum_identifiers=True)
     check_expand_wrappers(cx, ob)
 
 
